@@ -2,7 +2,7 @@
 //
 // Three streams, one op language:
 //
-//	unprefix <hexlist>                         core.BuildTarget.UnprefixedHashes in-process (result + aliased target.Hashes)
+//	unprefix <hexlist>                         core.BuildTarget.UnprefixedHashes in-process (result + target.Hashes afterwards)
 //	dig <cid> <kinds> <table>                  digest table of a generated content (computed HERE, independently of plz:
 //	                                           crypto primitives applied to the bytes this harness wrote) for the model
 //	check <cfg> <checkers> <cid> <hexlist>     build.checkRuleHashes in-process (hook) on real files, all six algorithms
@@ -373,6 +373,10 @@ func runUnprefix(r *lib.Run, op string, f []string) {
 	t.Hashes = append([]string{}, hs...)
 	res := t.UnprefixedHashes()
 	r.Emit(op, hexList(res)+"|"+hexList(t.Hashes), true)
+	if strings.Join(t.Hashes, "\x00") != strings.Join(hs, "\x00") {
+		// the declared list feeds the rule hash: rewriting it changes the stamp written after the check (fixed by 656076b)
+		r.OracleFail("unprefixed-hashes-rewrites-declared-list", op, fmt.Sprintf("target.Hashes %q -> %q", hs, t.Hashes))
+	}
 	for i, h := range hs {
 		if i < len(res) && res[i] != unprefixSpec(h) {
 			r.OracleFail("unprefix-differs-from-spec", op, fmt.Sprintf("%q -> %q, spec %q", h, res[i], unprefixSpec(h)))
